@@ -92,6 +92,17 @@ func dyn(u string, attempt int) (world.Resp, bool) {
 		// outlinks from all three sources: <a href>, the Link response header, bare URLs in the text
 		hdr := map[string]string{"Content-Type": "text/html; charset=utf-8", "Link": `<http://other.example/hdr1>; rel="next", <` + H + `/in2>; rel="alternate"`}
 		return world.Resp{Status: 200, Header: hdr, Body: `<!DOCTYPE html><html><body><img src="/a.png"><img src="/ra"><a href="` + H + `/in1">in</a> <a href="http://other.example/out1">out</a> see http://other.example/plain1 and ` + H + `/in3 for more</body></html>`}, true
+	case "/feed.xml", "/cut.xml", "/hub.json":
+		// documents that are not HTML and name further pages: a feed, the same feed cut inside its last tag (the
+		// tokenizer fails after it has read the links), a JSON document
+		feed := `<?xml version="1.0" encoding="UTF-8"?><rss version="2.0"><channel><title>t</title><link>http://other.example/feed2</link><item><link>` + H + `/in1</link><enclosure url="` + H + `/a.png"/></item></channel></rss>`
+		switch p {
+		case "/cut.xml":
+			return world.Resp{Status: 200, Header: map[string]string{"Content-Type": "application/xml"}, Body: feed[:len(feed)-len("nnel></rss>")]}, true
+		case "/hub.json":
+			return world.Resp{Status: 200, Header: map[string]string{"Content-Type": "application/json"}, Body: `{"next": "http://other.example/page2", "self": "` + H + `/in1", "img": "` + H + `/a.png"}`}, true
+		}
+		return world.Resp{Status: 200, Header: map[string]string{"Content-Type": "application/xml"}, Body: feed}, true
 	case "/ra":
 		return world.Resp{Status: 301, Header: map[string]string{"Location": "/ra.png"}}, true
 	case "/a.png", "/ra.png":
@@ -167,7 +178,9 @@ func oracle(s *scen, x *vsched.Exec, w *world.World) error {
 	for _, f := range w.Log {
 		count[strings.TrimPrefix(f.URL, H)]++
 	}
-	isChain := func(u string) bool { return strings.HasPrefix(u, "/r/") || strings.HasPrefix(u, "/loop/") || u == "/self" }
+	isChain := func(u string) bool {
+		return strings.HasPrefix(u, "/r/") || strings.HasPrefix(u, "/loop/") || u == "/self"
+	}
 	// each URL is attempted at most max-retry+1 times per visit (outside the redirect
 	// families every URL is visited once per seed; a looping redirect visits its URLs repeatedly)
 	for u, n := range count {
@@ -273,6 +286,17 @@ func scenarios(tier string) []scen {
 							out = append(out, scen{Family: f.name, Seed: f.seed, SeedHops: h0, MaxRedirect: mr, MaxRetry: rt, MaxHops: mh, DC: dc, Patterns: dcs[dc]})
 						}
 					}
+				}
+			}
+		}
+	}
+	// hubs that are not HTML: outlinks found by the XML and JSON extractors obey the same hop rules, also when the
+	// document breaks off
+	for _, f := range []struct{ name, seed string }{{"xml-hub", H + "/feed.xml"}, {"xml-hub-cut", H + "/cut.xml"}, {"json-hub", H + "/hub.json"}} {
+		for _, mh := range []int{0, 1, 2} {
+			for _, h0 := range []int{0, 1, 2} {
+				for _, dc := range []string{"off", "site", "other"} {
+					out = append(out, scen{Family: f.name, Seed: f.seed, SeedHops: h0, MaxRedirect: 1, MaxRetry: 0, MaxHops: mh, DC: dc, Patterns: dcs[dc]})
 				}
 			}
 		}
